@@ -25,6 +25,25 @@ var cliPrograms = map[string]string{
 	"conv":   "c := \"a\" < \"b\"\nprint(c)\n",
 }
 
+// programs with imports: files written next to the input (and next to the copy the library is asked about)
+var cliExtra = map[string]map[string]string{
+	"okimp":  {"lib/helper.tsh": "calls := 0\nprefix := \"[h]\"\nfunc Tag(s string) string {\n\tcalls++\n\treturn prefix + s + itoa(calls)\n}\nprint(\"helper ready\")\n"},
+	"impbad": {"lib/helper.tsh": "limit := 3\nfunc Over(n int) bool {\n\treturn n > \"three\"\n}\nprint(\"helper ready\")\n"},
+}
+
+func init() {
+	cliPrograms["okimp"] = "import (\n\t\"strings\"\n\th \"lib/helper.tsh\"\n)\n\nprint(h.Tag(\"a\"), h.Tag(strings.Repeat(\"b\", 2)))\n"
+	cliPrograms["impbad"] = "import h \"lib/helper.tsh\"\n\nprint(h.Over(4))\n"
+}
+
+func writeExtra(kind, dir string) {
+	for rel, content := range cliExtra[kind] {
+		p := filepath.Join(dir, rel)
+		os.MkdirAll(filepath.Dir(p), 0o755)
+		os.WriteFile(p, []byte(content), 0o644)
+	}
+}
+
 func dig(b []byte) string {
 	sum := sha256.Sum256(b)
 	return fmt.Sprintf("%x", sum[:10])
@@ -66,6 +85,7 @@ func cmdCli(args []string) {
 			os.WriteFile(filepath.Join(dir, "afile"), []byte("x"), 0o644)
 			prog := cliPrograms[c["kind"].(string)]
 			os.WriteFile(in, []byte(prog), 0o644)
+			writeExtra(c["kind"].(string), filepath.Dir(in))
 			base := filepath.Base(in)
 			base = base[:len(base)-len(filepath.Ext(base))]
 			names := N{"bash": base + ".sh", "batch": base + ".bat"}
@@ -80,6 +100,7 @@ func cmdCli(args []string) {
 			cp := filepath.Join(dir, "libcopy", filepath.Base(in))
 			os.MkdirAll(filepath.Dir(cp), 0o755)
 			os.WriteFile(cp, []byte(prog), 0o644)
+			writeExtra(c["kind"].(string), filepath.Dir(cp))
 			for _, t := range []string{"bash", "batch"} {
 				s, err, _ := transpileSafe(cp, t)
 				if err != nil {
